@@ -9,19 +9,14 @@ TB = ("Trusted: Coq 8.16.1 kernel (+vm_compute), translator gotables, extraction
       "the Go harness and python generators/oracles. The Gallina model is hand-written and validated against the "
       "implementation by execution on every run (correspondence), not verified against the Go source.")
 
-CHECKS = {
-  "C19": dict(
-    category="proof",
-    text=("Heap model of attr.Set (aliasing explicit) with theorems over all set/add/clone histories: no-sharing invariant "
-          "reachable, Compare is a total preorder, equality <=> same flags and pairs, clone equal and independent; "
-          "text forms: Fields/Join inverse and injective regenerated dictionaries proved, unrestricted round trips refuted "
-          "by witnesses (known findings). Model tied to the code by differential execution of histories and parsers; "
-          "value semantics additionally checked against a map-based reference on the Go outputs."),
-    note=TB + " Round-trip composition (write then parse) is decided by correspondence+oracle, not a theorem. "
-              "strconv.Quote/Unquote and strings.Fields modelled on ASCII only.",
-    technique="Rocq proof over a hand-written heap model + differential correspondence (extracted OCaml vs Go)",
-    design="8 C19"),
-}
+import importlib, sys, glob
+sys.path.insert(0, os.path.join(V, "harness"))
+CHECKS = {}
+for f in sorted(glob.glob(os.path.join(V, "harness/props/C*.py"))):
+    pid = os.path.basename(f)[:-3]
+    mod = importlib.import_module("props." + pid)
+    if hasattr(mod, "MANIFEST"):
+        CHECKS[pid] = mod.MANIFEST
 
 NOT_YET = {
 }
